@@ -283,6 +283,10 @@ def run(prog: Program, rep: Report, tier: str) -> None:
 
     share(prog, rep, "C17", ("R17.1", "R17.2"), "R01.7", "the stage positions of a scheme are clipped to the particle's own axis limits before the velocity is sampled there", 4, only=lambda o: o.func.startswith("tracker.") or "tracker." in o.construct)
     share(prog, rep, "C03", ("R03.2", "R03.3"), "R01.8", "the velocity field the stages sample is the time interpolation of the frames from the very first step on (priming at the start, hand-over at frames)", 10)
+    rep.rule("R01.9", "calls inside the package pass same-named variables at the position of the parameter of that name (positions, velocities, metric are not exchanged on the way to a scheme or a sampler)", 10)
+    from . import align as _align
+
+    _align.argument_order(prog, rep, "R01.9")
 
 
 
